@@ -47,12 +47,22 @@ def _path_bucket(p: str) -> str:
     return re.sub(r"\[[^\]]*\]", "[]", p.split(":")[0])
 
 
-def check_one(m_abs, trailer: bytes):
-    """Returns list of (key, what)."""
+_SHARED_OPTS = None
+
+
+def check_one(m_abs, trailer: bytes, shared_options: bool = False):
+    """Returns list of (key, what). shared_options: use one long-lived PackingOptions for every message (as a
+    session does) instead of fresh ones - exposes state memoised across calls or objects."""
+    global _SHARED_OPTS
     out = []
     op = m_abs[0]
     m = av.build(m_abs)
-    opts = sl._messages.PackingOptions()
+    if shared_options:
+        if _SHARED_OPTS is None:
+            _SHARED_OPTS = sl._messages.PackingOptions()
+        opts = _SHARED_OPTS
+    else:
+        opts = sl._messages.PackingOptions()
     try:
         data = m.pack(opts)
     except RecursionError:
@@ -61,9 +71,15 @@ def check_one(m_abs, trailer: bytes):
         return [(f"pack-exc:{op}:{norm_msg(e)}", f"pack raised {type(e).__name__}: {e}")]
     if not isinstance(data, bytes):
         out.append(("pack-type:" + op, f"pack returned {type(data).__name__}"))
+    try:
+        again = m.pack(opts)
+        if again != data:
+            out.append(("pack-not-repeatable:" + op, "packing the same message object twice gives different bytes"))
+    except Exception as e:
+        out.append((f"pack-second-time-exc:{op}:{norm_msg(e)}", f"second pack of the same object raised {type(e).__name__}: {e}"))
     reader = sl.asn1.ASN1Reader(bytes(data) + trailer)
     try:
-        m2 = sl._messages.unpack_ldap_message(reader, sl._messages.PackingOptions())
+        m2 = sl._messages.unpack_ldap_message(reader, opts if shared_options else sl._messages.PackingOptions())
     except Exception as e:
         return out + [(f"unpack-exc:{op}:{norm_msg(e)}", f"decoding the library's own encoding raised {type(e).__name__}: {e}")]
     rem = reader.get_remaining_data()
@@ -107,9 +123,11 @@ def run_shard(ctx: Ctx, acc: Acc):
             acc.nontrivial(m_abs)
         if i < 2:
             acc.sample({"message": m_abs, "trailer": trailer})
-        for key, what in check_one(m_abs, trailer):
-            acc.violation(key, what, {"message": m_abs, "trailer": trailer, "index": [ctx.seed, ctx.shard, i]})
+        shared = (i % 3 == 0)
+        acc.count("options:shared" if shared else "options:fresh")
+        for key, what in check_one(m_abs, trailer, shared):
+            acc.violation(key, what, {"message": m_abs, "trailer": trailer, "index": [ctx.seed, ctx.shard, i], "shared_options": shared})
 
 
 def replay(w):
-    return check_one(to_tuple(w["message"]), bytes(w["trailer"]))
+    return check_one(to_tuple(w["message"]), bytes(w["trailer"]), bool(w.get("shared_options")))
